@@ -9,20 +9,25 @@ export GOFLAGS=-mod=mod GOPROXY=off GOSUMDB=off GOTOOLCHAIN=local
 cd "$WT" || exit 9
 git checkout -q -- . ; git clean -fdq
 ddir=$(head -1 "$M/demo_test.go" | sed -n 's,^// *dir: *,,p'); ddir=${ddir:-.}
+# optional header lines of the demonstration: "// needs: -race" and "// run: <TestName>" (must be alone in its process)
+dflags=""
+head -5 "$M/demo_test.go" | grep -q '^// *needs:.*-race' && dflags="-race"
+drun=$(head -5 "$M/demo_test.go" | sed -n 's,^// *run: *,,p' | head -1); drun=${drun:-.}
+T=$(mktemp -d /tmp/mutant.XXXXXX)
 # demo without the patch
 cp "$M/demo_test.go" "$ddir/zz_demo_test.go"
-if go test -vet=off -count=1 -run . "./$ddir" >/tmp/mut.demo0 2>&1; then echo "demo-without-patch: PASS"; else echo "demo-without-patch: FAIL (bad demo)"; tail -5 /tmp/mut.demo0; fi
+if go test $dflags -vet=off -count=1 -run "$drun" "./$ddir" >$T/demo0 2>&1; then echo "demo-without-patch: PASS"; else echo "demo-without-patch: FAIL (bad demo)"; tail -5 $T/demo0; fi
 rm -f "$ddir/zz_demo_test.go"
 git apply "$M/patch.diff" || { echo "patch does not apply"; exit 8; }
 if go build ./... && go build -tags verif ./... ; then echo "builds: OK"; else echo "builds: FAIL"; fi
-if go test -vet=off -count=1 ./... >/tmp/mut.suite 2>&1; then echo "suite-with-patch: PASS"; else echo "suite-with-patch: FAIL"; tail -5 /tmp/mut.suite; fi
+if go test -vet=off -count=1 ./... >$T/suite 2>&1; then echo "suite-with-patch: PASS"; else echo "suite-with-patch: FAIL"; tail -5 $T/suite; fi
 cp "$M/demo_test.go" "$ddir/zz_demo_test.go"
-if go test -vet=off -count=1 -run . "./$ddir" >/tmp/mut.demo1 2>&1; then echo "demo-with-patch: PASS (bad demo)"; else echo "demo-with-patch: FAIL (as it should)"; fi
+if go test $dflags -vet=off -count=1 -run "$drun" "./$ddir" >$T/demo1 2>&1; then echo "demo-with-patch: PASS (bad demo)"; else echo "demo-with-patch: FAIL (as it should)"; fi
 rm -f "$ddir/zz_demo_test.go"
 cd /verif
 for c in "$@"; do
-  VERIF_REPO="$WT" ./check "$c" "$TIER" >/tmp/mut.chk 2>&1; rc=$?
-  echo "check $c $TIER: exit=$rc  $(grep -c '^VIOLATION' /tmp/mut.chk) VIOLATION line(s); $(grep -v '^VIOLATION\|^KNOWN' /tmp/mut.chk | head -2 | cut -c1-260 | tr '\n' ' ')"
+  VERIF_REPO="$WT" ./check "$c" "$TIER" >$T/chk 2>&1; rc=$?
+  echo "check $c $TIER: exit=$rc  $(grep -c '^VIOLATION' $T/chk) VIOLATION line(s); $(grep -v '^VIOLATION\|^KNOWN' $T/chk | head -2 | cut -c1-260 | tr '\n' ' ')"
 done
 cd "$WT" && git checkout -q -- . && git clean -fdq
-rm -f /tmp/mut.demo0 /tmp/mut.demo1 /tmp/mut.suite /tmp/mut.chk
+rm -rf $T
